@@ -35,6 +35,99 @@ theorem R_storeDel_ended {b b' : B} {s s' : Spec.Broker.S} (h : R b s) (hb' : R 
     intro he
     exact hne (h.cidUniq c' c τ0 σ hτ0 hl (by rw [hc0, he]))
 
+/-- the end of a live connection other than by DISCONNECT (`stop` / `endConn`): the
+states stay related; both sides close the connection and then publish the will -
+the model's outputs are a fan-out of what the reference broker demands; the
+session objects of the other live connections are untouched -/
+theorem stop_refines {b : B} {s : Spec.Broker.S} (h : R b s) (c : Nat) (hal : b.alive c = true) :
+    R (stop b c).1 (Spec.Broker.endConn s c false).1 ∧
+    ∃ fs fo, (Spec.Broker.endConn s c false).2 = .closed c :: fs ∧ (stop b c).2 = .closed c :: fo ∧ Fan fs fo := by
+  obtain ⟨cn, σ, k, hc, ha, hs, hk, hrel⟩ := h.liveConn hal
+  have hl := liveSess_eq hc ha hs
+  have hσ := liveSess_ref hl
+  rw [Mqtt.Proofs.BrokerLife.stop_live b c cn σ hc ha hs, spec_endConn_eq s c k false hk]
+  have R0 := R_stopBase h hc ha hs hk hrel
+  have hlive0 : ∀ c' τ, liveSess (stopBase b c σ) c' = some τ → c' ≠ c ∧ ∃ τ0, liveSess b c' = some τ0 ∧ τ0.cid = τ.cid := by
+    intro c' τ hτ
+    rw [liveSess_stopBase] at hτ
+    by_cases he : c' = c
+    · simp [he] at hτ
+    · simp only [he, ↓reduceIte] at hτ; exact ⟨he, τ, hτ, rfl⟩
+  by_cases hwf : σ.willFlag = true
+  case neg =>
+    have hkw : k.will = none := by
+      have := hrel.willFlag
+      cases hw : k.will with
+      | none => rfl
+      | some w => rw [hw] at this; exact absurd this hwf
+    rw [if_neg hwf]
+    simp only [hkw]
+    refine ⟨?_, [], [], rfl, rfl, Fan.nil⟩
+    by_cases hcl : σ.clean = true
+    · rw [if_pos hcl]
+      exact R_storeDel_ended h R0 hl hrel.store hσ hcl hlive0
+    · rw [if_neg hcl]; exact R0
+  case pos =>
+    have hkw : ∃ w, k.will = some w := by
+      have := hrel.willFlag; rw [hwf] at this
+      cases hw : k.will with
+      | none => rw [hw] at this; cases this
+      | some w => exact ⟨w, rfl⟩
+    obtain ⟨w, hkw⟩ := hkw
+    have hσw : σ.will = some (willMsg w) := by rw [hrel.will, hkw]; rfl
+    obtain ⟨wg, wn, wq⟩ := willOk_iff w (hrel.willOk w hkw)
+    rw [if_pos hwf]
+    simp only [hσw, hkw]
+    have hfr := (Mqtt.Proofs.BrokerQos.onPublish_frame (stopBase b c σ) (willMsg w)).1
+    obtain ⟨R1, fan, _⟩ := R_onPublish R0 (willMsg w) wg wn wq (.inr (.inl rfl))
+      (Mqtt.Proofs.Broker.Inv_onPublish _ _ R0.inv)
+      (Mqtt.Proofs.BrokerLife.inv_frame (Mqtt.Proofs.BrokerLife.onPublish_frame _ _) R0.linv)
+      (R0.qinv.same hfr.same)
+    have hls1 : ∀ c', liveSess (onPublish (stopBase b c σ) (willMsg w)).1 c' = liveSess (stopBase b c σ) c' :=
+      liveSess_congr hfr.conns hfr.sess
+    have hσ1 : (onPublish (stopBase b c σ) (willMsg w)).1.getSess σ.ref = some σ := by
+      rw [Mqtt.Proofs.Broker.getSess_congr _ _ hfr.sess]; exact hσ
+    have R2 := R_setSess_dead R1 σ { σ with will := some (onPublish (stopBase b c σ) (willMsg w)).2.1 } hσ1
+      rfl rfl rfl rfl (fun _ => rfl)
+      (by
+        intro c' τ hτ
+        rw [hls1] at hτ
+        obtain ⟨hne, τ0, hτ0, _⟩ := hlive0 c' τ hτ
+        rw [liveSess_stopBase] at hτ
+        simp only [hne, ↓reduceIte] at hτ
+        intro hr
+        exact hne (h.refUniq hτ hl hr))
+    refine ⟨?_, _, _, rfl, rfl, fan⟩
+    by_cases hcl : σ.clean = true
+    case neg => rw [if_neg hcl]; exact R2
+    case pos =>
+      rw [if_pos hcl]
+      refine R_storeDel_ended (σ' := { σ with will := some (onPublish (stopBase b c σ) (willMsg w)).2.1 })
+        h R2 hl ?_ ?_ hcl ?_
+      · show (onPublish (stopBase b c σ) (willMsg w)).1.storeGet σ.cid = some σ.ref
+        rw [storeGet_congr hfr.store]; exact hrel.store
+      · exact Mqtt.Proofs.BrokerLife.getSess_setSess _ _
+      · intro c' τ hτ
+        have hgs := getSess_update (b := (onPublish (stopBase b c σ) (willMsg w)).1)
+          (b' := (onPublish (stopBase b c σ) (willMsg w)).1.setSess
+            { σ with will := some (onPublish (stopBase b c σ) (willMsg w)).2.1 }) rfl
+        -- a live session of the new state is one of `stopBase` with the same identifier
+        obtain ⟨cn', hc', ha', hs'⟩ := liveSess_some hτ
+        rw [hgs] at hs'
+        have hc'' : (onPublish (stopBase b c σ) (willMsg w)).1.getConn c' = some cn' := hc'
+        by_cases hr : cn'.sess = σ.ref
+        · simp only [hr, ↓reduceIte, Option.some.injEq] at hs'
+          subst hs'
+          have hl1 : liveSess (onPublish (stopBase b c σ) (willMsg w)).1 c' = some σ :=
+            liveSess_eq hc'' ha' (by rw [hr]; exact hσ1)
+          rw [hls1] at hl1
+          obtain ⟨hne, τ0, hτ0, hcid⟩ := hlive0 c' σ hl1
+          exact ⟨hne, τ0, hτ0, hcid⟩
+        · simp only [hr, ↓reduceIte] at hs'
+          have hl1 : liveSess (onPublish (stopBase b c σ) (willMsg w)).1 c' = some τ := liveSess_eq hc'' ha' hs'
+          rw [hls1] at hl1
+          exact hlive0 c' τ hl1
+
 /-- `close` -/
 theorem step_close {b : B} {s : Spec.Broker.S} (h : R b s) (c : Nat) :
     R (step b (.close c)).1 (Spec.Broker.step1 s (.close c)).1 ∧
@@ -50,98 +143,11 @@ theorem step_close {b : B} {s : Spec.Broker.S} (h : R b s) (c : Nat) :
     rw [this]
     exact ⟨h, accepts_nil⟩
   | true =>
-    obtain ⟨cn, σ, k, hc, ha, hs, hk, hrel⟩ := h.liveConn hal
-    have hl := liveSess_eq hc ha hs
-    have hσ := liveSess_ref hl
-    rw [Mqtt.Proofs.BrokerLife.stop_live b c cn σ hc ha hs, spec_endConn_eq s c k false hk]
-    have R0 := R_stopBase h hc ha hs hk hrel
-    have hlive0 : ∀ c' τ, liveSess (stopBase b c σ) c' = some τ → c' ≠ c ∧ ∃ τ0, liveSess b c' = some τ0 ∧ τ0.cid = τ.cid := by
-      intro c' τ hτ
-      rw [liveSess_stopBase] at hτ
-      by_cases he : c' = c
-      · simp [he] at hτ
-      · simp only [he, ↓reduceIte] at hτ; exact ⟨he, τ, hτ, rfl⟩
-    by_cases hwf : σ.willFlag = true
-    case neg =>
-      have hkw : k.will = none := by
-        have := hrel.willFlag
-        cases hw : k.will with
-        | none => rfl
-        | some w => rw [hw] at this; exact absurd this hwf
-      rw [if_neg hwf]
-      simp only [hkw]
-      refine ⟨?_, accepts_lits (.cons (.closed c) .nil)⟩
-      by_cases hcl : σ.clean = true
-      · rw [if_pos hcl]
-        exact R_storeDel_ended h R0 hl hrel.store hσ hcl hlive0
-      · rw [if_neg hcl]; exact R0
-    case pos =>
-      have hkw : ∃ w, k.will = some w := by
-        have := hrel.willFlag; rw [hwf] at this
-        cases hw : k.will with
-        | none => rw [hw] at this; cases this
-        | some w => exact ⟨w, rfl⟩
-      obtain ⟨w, hkw⟩ := hkw
-      have hσw : σ.will = some (willMsg w) := by rw [hrel.will, hkw]; rfl
-      obtain ⟨wg, wn, wq⟩ := willOk_iff w (hrel.willOk w hkw)
-      rw [if_pos hwf]
-      simp only [hσw, hkw]
-      have hfr := (Mqtt.Proofs.BrokerQos.onPublish_frame (stopBase b c σ) (willMsg w)).1
-      obtain ⟨R1, fan, _⟩ := R_onPublish R0 (willMsg w) wg wn wq (.inr (.inl rfl))
-        (Mqtt.Proofs.Broker.Inv_onPublish _ _ R0.inv)
-        (Mqtt.Proofs.BrokerLife.inv_frame (Mqtt.Proofs.BrokerLife.onPublish_frame _ _) R0.linv)
-        (R0.qinv.same hfr.same)
-      have hls1 : ∀ c', liveSess (onPublish (stopBase b c σ) (willMsg w)).1 c' = liveSess (stopBase b c σ) c' :=
-        liveSess_congr hfr.conns hfr.sess
-      have hσ1 : (onPublish (stopBase b c σ) (willMsg w)).1.getSess σ.ref = some σ := by
-        rw [Mqtt.Proofs.Broker.getSess_congr _ _ hfr.sess]; exact hσ
-      have R2 := R_setSess_dead R1 σ { σ with will := some (onPublish (stopBase b c σ) (willMsg w)).2.1 } hσ1
-        rfl rfl rfl rfl (fun _ => rfl)
-        (by
-          intro c' τ hτ
-          rw [hls1] at hτ
-          obtain ⟨hne, τ0, hτ0, _⟩ := hlive0 c' τ hτ
-          rw [liveSess_stopBase] at hτ
-          simp only [hne, ↓reduceIte] at hτ
-          intro hr
-          exact hne (h.refUniq hτ hl hr))
-      have hacc : Accepts
-          (SOut.closed c :: (Spec.Broker.accept (endSpec s c k)
-            { qos := w.qos, retain := w.retain, topic := w.topic, payload := w.payload }).2)
-          (Out.closed c :: (onPublish (stopBase b c σ) (willMsg w)).2.2.1) := by
-        have := accepts_shape (.cons (.closed c) .nil) fan .nil
-        simp only [List.cons_append, List.nil_append, List.append_nil] at this
-        exact this
-      refine ⟨?_, hacc⟩
-      by_cases hcl : σ.clean = true
-      case neg => rw [if_neg hcl]; exact R2
-      case pos =>
-        rw [if_pos hcl]
-        refine R_storeDel_ended (σ' := { σ with will := some (onPublish (stopBase b c σ) (willMsg w)).2.1 })
-          h R2 hl ?_ ?_ hcl ?_
-        · show (onPublish (stopBase b c σ) (willMsg w)).1.storeGet σ.cid = some σ.ref
-          rw [storeGet_congr hfr.store]; exact hrel.store
-        · exact Mqtt.Proofs.BrokerLife.getSess_setSess _ _
-        · intro c' τ hτ
-          have hgs := getSess_update (b := (onPublish (stopBase b c σ) (willMsg w)).1)
-            (b' := (onPublish (stopBase b c σ) (willMsg w)).1.setSess
-              { σ with will := some (onPublish (stopBase b c σ) (willMsg w)).2.1 }) rfl
-          -- a live session of the new state is one of `stopBase` with the same identifier
-          obtain ⟨cn', hc', ha', hs'⟩ := liveSess_some hτ
-          rw [hgs] at hs'
-          have hc'' : (onPublish (stopBase b c σ) (willMsg w)).1.getConn c' = some cn' := hc'
-          by_cases hr : cn'.sess = σ.ref
-          · simp only [hr, ↓reduceIte, Option.some.injEq] at hs'
-            subst hs'
-            have hl1 : liveSess (onPublish (stopBase b c σ) (willMsg w)).1 c' = some σ :=
-              liveSess_eq hc'' ha' (by rw [hr]; exact hσ1)
-            rw [hls1] at hl1
-            obtain ⟨hne, τ0, hτ0, hcid⟩ := hlive0 c' σ hl1
-            exact ⟨hne, τ0, hτ0, hcid⟩
-          · simp only [hr, ↓reduceIte] at hs'
-            have hl1 : liveSess (onPublish (stopBase b c σ) (willMsg w)).1 c' = some τ := liveSess_eq hc'' ha' hs'
-            rw [hls1] at hl1
-            exact hlive0 c' τ hl1
+    obtain ⟨r1, fs, fo, e1, e2, fan⟩ := stop_refines h c hal
+    refine ⟨r1, ?_⟩
+    rw [e1, e2]
+    have := accepts_shape (.cons (.closed c) .nil) fan .nil
+    simpa using this
 
 /-- DISCONNECT on a live connection -/
 theorem step_disconnect {b : B} {s : Spec.Broker.S} (h : R b s) (c : Nat) (hal : b.alive c = true) :
